@@ -10,7 +10,7 @@ Recipe
  "seq":   {"perm": [keys...], "nconst": 2|3},       # >= 3 keys: which constants are fixed one after the other
  "x":     {"a": [...], ...},                        # full position (flat values per key)
  "y":     {"a": [...], ...},                        # second position (value check of the specialised operator)
- "adapter": {"min": "NewtonCG", "iters": 2, "wm": true}}   # energy subs only
+ "adapter": {"min": "NewtonCG", "iters": 2, "wm": true, "pick": 0}}   # energy subs only
 
 Field-valued nodes: ["var", key] ["duck", key, chain-on-["id", type]] ["ptw", f, x] ["pow", p, x]
 ["clip", lo, hi, x] ["scale", c, x] ["neg", x] ["diag", vec, x] ["addf", vec, x, plus?] ["addc", c, x]
@@ -48,8 +48,8 @@ intermediate stages of longer sequences: value); for energies also
 EnergyAdapter(x|rest, <op specialised for G1>, constants=G2).
 
 and ift.EnergyAdapter(x, op, constants=K): position/gradient/metric live on keys \\ K only, value,
-gradient and metric equal the restricted quantities of `op`, and after a few minimiser steps the
-same holds at the final position; the constant part of the reconstructed full position is
+gradient and metric equal the restricted quantities of `op`, and after a few minimiser steps (every K for
+<= 3 keys, 6 of the 14 K for 4 keys) the same holds at the final position; the constant part of the reconstructed full position is
 bit-identical.
 
 Intervals (value bounds) are tracked by the GENERATOR only, so that log/sqrt/reciprocal/Poisson
@@ -964,12 +964,16 @@ def check_energy(rec):
             name = "L_BFGS"
         wm = has_metric and (name == "NewtonCG" or ad["wm"])
         classes.add("adapter_wm" if wm else "adapter_nometric")
-        for K in _subsets(keys):
+        subsets = list(_subsets(keys))
+        for i, K in enumerate(subsets):
             Kset = set(K)
             cpart = X.extract_by_keys(K)
             E = ift.EnergyAdapter(X, op, constants=list(K), want_metric=wm, nanisinf=True)
             _adapter_relations(op, E, Kset, keys, cpart, wm, "initial", ref0)
-            _minimise(op, E, Kset, keys, cpart, wm, name, ad["iters"], classes, "after_steps")
+            # minimiser steps: every subset for <= 3 keys; for 4 keys (14 subsets) 6 of them, of all sizes,
+            # rotated by the recipe
+            if len(subsets) <= 6 or (i + int(ad.get("pick", 0))) % 7 in (0, 2, 4):
+                _minimise(op, E, Kset, keys, cpart, wm, name, ad["iters"], classes, "after_steps")
         # EnergyAdapter(constants=K2) on an energy that has already been specialised for K1
         first = True
         for K in r.seqsets:
@@ -1131,7 +1135,7 @@ def _leaf(ctx, t, scope, must, linear=False):
         key = draw(st.sampled_from(sorted(scope)))
     kt = scope[key]
     iv = ctx.key_iv(key)
-    if key in ctx.keys and ctx.kmt and draw(st.integers(0, 3)) == 0:
+    if key in ctx.keys and ctx.kmt and draw(st.integers(0, 4)) == 0:
         # multi-key linear leaf: one component of a linear operator acting on a MultiDomain of input keys
         As = [A for A in ctx.kmt if key in ctx.mtypes[A]]
         Bs = _mtypes_with(ctx, t)
@@ -1662,7 +1666,7 @@ def _key_mtypes(draw, keys, mtypes):
     if draw(st.integers(0, 3)) == 0:
         return
     sub = names
-    if len(names) >= 3 and draw(st.integers(0, 2)) == 0:
+    if len(names) >= 3 and draw(st.booleans()):
         sub = sorted(draw(st.permutations(names))[:draw(st.integers(2, len(names) - 1))])
     mtypes["mk0"] = {k: keys[k] for k in sub}
     if len(sub) >= 2 and draw(st.booleans()):
@@ -1701,7 +1705,7 @@ def field_recipes(draw, tier, target="any"):
 def _adapter(draw):
     return {"min": draw(st.sampled_from(["NewtonCG", "NewtonCG", "SteepestDescent", "L_BFGS", "VL_BFGS",
                                          "NonlinearCG"])),
-            "iters": draw(st.integers(1, 3)), "wm": draw(st.booleans())}
+            "iters": draw(st.integers(1, 3)), "wm": draw(st.booleans()), "pick": draw(st.integers(0, 6))}
 
 
 @st.composite
